@@ -246,14 +246,14 @@ def build_harness_rt():
             raise CheckFailure("harness-rt-build", "\n".join(errs[:5]) + "\n---\n" + out[-3000:])
 
 
-def real_timer_cases(rep, theorem):
+def real_timer_cases(rep, theorem, which="timers"):
     """The timed models assume of the real timer only that `new_timer(d)` is not ready before d has elapsed (all the
     checks on the virtual clock replace it).  This runs the crate's own timer: timer(d) / interval(d) on a LocalPool polled
     for 350 ms; delays up to 120 ms must run and not early, 2 s and the delays beyond u32 milliseconds / u32 seconds / u64
     microseconds must not have run."""
     try:
         build_harness_rt()
-        rc, out = sh(["timeout", "120", os.path.join(HARNESS_RT, "target", "release", "rxverif-harness-rt")])
+        rc, out = sh(["timeout", "120", os.path.join(HARNESS_RT, "target", "release", "rxverif-harness-rt")] + ([which] if which != "timers" else []))
         if rc != 0:
             raise CheckFailure("harness-rt-run", "exit %d\n%s" % (rc, out[-2000:]))
     except CheckFailure as e:
@@ -266,6 +266,14 @@ def real_timer_cases(rep, theorem):
             continue
         cid, obs = line.split(" ", 1)
         n += 1
+        if cid.startswith("race-"):
+            # unsubscribe() from one thread while an item of another thread is being handed to a slow scheduler (debounce, delay_threads,
+            # throttle_time, observe_on_threads with real timers): nothing is delivered once it has returned and a handle says closed
+            if obs != "ok":
+                rep.fail("unsubscribe() while an item was inside the operator on another thread: " + obs,
+                         {"case": "(real-timer %s)" % cid, "impl": obs, "spec": "ok", "theorem": theorem, "failing_input_found": True,
+                          "replay": "harness_rt/target/release/rxverif-harness-rt races"}, {})
+            continue
         small = any(cid.endswith(x) for x in ("-0ms", "-30ms", "-1500us", "-120ms"))     # every other delay is far beyond the window
         want = "ran" if small else "not-run"
         if obs != want:
